@@ -138,14 +138,14 @@ func init() { register(c19{}) }
 func (c19) ID() string        { return "C19" }
 func (c19) CoqModule() string { return "Check_C19" }
 func (c19) Rule() string {
-	return "generated descriptions (0-2 global consumes/produces, 1-4 operations over GET/POST/PUT/DELETE x 4 path templates with 0-2 own consumes/produces, " +
+	return "generated descriptions (0-2 global consumes/produces, 1-4 operations over all seven methods GET/POST/PUT/DELETE/OPTIONS/HEAD/PATCH x path templates with 0-2 own consumes/produces, " +
 		"base path absent or one of 8 spellings (root, trailing slash, dots, dashes, nested); templates of 1-3 segments with dots, dashes, underscores, tildes, at most one placeholder, or built around the base path (repeated as leading/trailing segments, substring of a segment); " +
 		"0-3 security definitions basic/apiKey, global and per-operation requirements incl. empty, anonymous, AND/OR alternatives, undefined or unused schemes; media types lower-case mostly, " +
-		"rarely with upper-case letters or parameters) x registration sets: exact, each single omission, each single addition, case variants of media types/methods/paths, JSON defaults kept or dropped, an operation registered under its full route, random subsets; " +
+		"rarely with upper-case letters or parameters) x registration sets: exact, each single omission, each single addition, case variants of media types/methods/paths, in half of the descriptions every operation registered under a spelling of its method of its own (upper, lower, capitalised, random case), JSON defaults kept or dropped, an operation registered under its full route, random subsets; " +
 		"every declared operation of each validated API is looked up in the real router under base path + template, and (simple descriptions) ONE handler is sent a history of requests: 2-3 rounds over all operations, each round in another order, " +
 		"in round k the k-th alternative requirement satisfied (exactly its schemes), the body's content type one the route admits spelled as declared / in mixed case / with parameters, the Accept header absent, the wildcard, an offer, its type wildcard, weighted lists, two lines - in half of the rounds the same for all operations; " +
 		"one operation in four is a form operation (an optional formData parameter, consumes application/x-www-form-urlencoded and/or multipart/form-data; the exact registrations hold the consumers Validate demands for them) and is always posted a well-formed non-empty form of a media type it lists (multipart under the boundary of the header), one in eight lists a form media type next to its other types; " +
-		"one operation in three shares its path with another one (other method, own produces); after the first round 1 request in 12 comes without credentials; every request is repeated on a fresh API value + context + handler, and the responses of the history are read again at its end; " +
+		"every operation is requested with its own method (a HEAD answer carries no body: status, Content-Type, the handler that ran, and an EMPTY body are required); one operation in three shares its path with another one (other method, own produces); after the first round 1 request in 12 comes without credentials; every request is repeated on a fresh API value + context + handler, and the responses of the history are read again at its end; " +
 		"2 cases in 5 go on with 1-3 further batches of registrations on the SAME API value (nothing, a superfluous authenticator/consumer/producer/operation, the JSON defaults dropped, a registration repeated, the exact set), Validate() after each, compared with a fresh API value given all registrations so far. " +
 		"Non-trivial: at least two categories are non-empty, or validation fails, or an operation is exercised."
 }
@@ -361,7 +361,7 @@ func c19DefaultReqs(in c19In, def string) []c19Req {
 	var out []c19Req
 	for i, o := range in.Ops {
 		rq := c19Req{Op: i}
-		if o.Method == "POST" || o.Method == "PUT" || o.Form {
+		if c19BodyMethod(o.Method) || o.Form {
 			if adm := c19RouteMedia(o.Consumes, in.GConsumes, def); len(adm) > 0 {
 				l := o.Consumes
 				if len(l) == 0 {
@@ -865,8 +865,29 @@ func (c19) Category(inAny any, obsAny any) (string, bool) {
 					forms |= 2
 				}
 			}
-			res += fmt.Sprintf("/served/worst-%d/ct-mixed-%d/ct-param-%d/non-last-alternative-%d/same-path-and-accept-other-offers-%d/forms-%d",
-				worst, mixed, param, alt, samePath, forms)
+			// methods served: 1 = HEAD, 2 = OPTIONS, 4 = PATCH; spelling of an operation registration other than upper case: 1 = of any
+			// method, 2 = of HEAD or OPTIONS
+			meths, spelt := 0, 0
+			for _, o := range in.Ops {
+				switch o.Method {
+				case "HEAD":
+					meths |= 1
+				case "OPTIONS":
+					meths |= 2
+				case "PATCH":
+					meths |= 4
+				}
+			}
+			for _, g := range in.Regs {
+				if m := string(g.A); g.Kind == "operation" && m != strings.ToUpper(m) {
+					spelt |= 1
+					if u := strings.ToUpper(m); u == "HEAD" || u == "OPTIONS" {
+						spelt |= 2
+					}
+				}
+			}
+			res += fmt.Sprintf("/served/worst-%d/ct-mixed-%d/ct-param-%d/non-last-alternative-%d/same-path-and-accept-other-offers-%d/forms-%d/head-options-patch-%d/method-spelt-%d",
+				worst, mixed, param, alt, samePath, forms, meths, spelt)
 		}
 	}
 	if len(obs.More) > 0 {
@@ -964,7 +985,32 @@ func c19CleanTemplate(r *rand.Rand, base string) string {
 		}
 	}
 }
-var c19Meths = []string{"GET", "POST", "PUT", "DELETE"}
+// all seven methods a Swagger 2.0 path item can declare
+var c19Meths = []string{"GET", "POST", "PUT", "DELETE", "OPTIONS", "HEAD", "PATCH"}
+
+// does a request of this method normally carry a body
+func c19BodyMethod(m string) bool { return m == "POST" || m == "PUT" || m == "PATCH" }
+
+// c19SpellMethod: a method name as an application may hand it to RegisterOperation: upper case, lower case, capitalised,
+// or letters in random case
+func c19SpellMethod(r *rand.Rand, m string) string {
+	switch r.Intn(4) {
+	case 0:
+		return m
+	case 1:
+		return strings.ToLower(m)
+	case 2:
+		return m[:1] + strings.ToLower(m[1:])
+	default:
+		b := []byte(strings.ToLower(m))
+		for i := range b {
+			if r.Intn(2) == 0 {
+				b[i] -= 'a' - 'A'
+			}
+		}
+		return string(b)
+	}
+}
 var c19Schemes = []string{"basic", "key", "other"}
 
 func c19MediaList(r *rand.Rand, max int) []Bs {
@@ -1042,7 +1088,7 @@ func (c19) Gen(r *rand.Rand, tier string, i int) any {
 	nops := 1 + r.Intn(4)
 	seen := map[string]bool{}
 	for j := 0; j < nops; j++ {
-		o := c19Op{Method: c19Meths[r.Intn(4)], Path: c19Template(r, in.BasePath)}
+		o := c19Op{Method: c19Meths[r.Intn(len(c19Meths))], Path: c19Template(r, in.BasePath)}
 		if len(in.Ops) > 0 && r.Intn(3) == 0 { // another method of a path that already has an operation
 			o.Path = in.Ops[r.Intn(len(in.Ops))].Path
 		}
@@ -1114,8 +1160,15 @@ func (c19) Gen(r *rand.Rand, tier string, i int) any {
 	for _, p := range prods {
 		regs = append(regs, c19Reg{Kind: "producer", A: Bs(p)})
 	}
+	// the method of an operation registration: in one description of two every one in upper case, else each in a spelling of its own
+	// (the library folds the name to upper case: the spelling must make no difference to validation, routing and serving)
+	spell := r.Intn(2) == 0
 	for _, o := range in.Ops {
-		regs = append(regs, c19Reg{Kind: "operation", A: Bs(o.Method), B: Bs(o.Path)})
+		m := o.Method
+		if spell {
+			m = c19SpellMethod(r, m)
+		}
+		regs = append(regs, c19Reg{Kind: "operation", A: Bs(m), B: Bs(o.Path)})
 	}
 	var sn []string
 	for s := range schemes {
@@ -1142,7 +1195,7 @@ func (c19) Gen(r *rand.Rand, tier string, i int) any {
 		case 1:
 			regs = append(regs, c19Reg{Kind: "producer", A: Bs(c19Media[r.Intn(len(c19Media))])})
 		case 2:
-			regs = append(regs, c19Reg{Kind: "operation", A: Bs(c19Meths[r.Intn(4)]), B: Bs(c19Template(r, in.BasePath))})
+			regs = append(regs, c19Reg{Kind: "operation", A: Bs(c19SpellMethod(r, c19Meths[r.Intn(len(c19Meths))])), B: Bs(c19Template(r, in.BasePath))})
 		default:
 			regs = append(regs, c19Reg{Kind: "auth", A: Bs([]string{"basic", "key", "other", "extra"}[r.Intn(4)])})
 		}
@@ -1156,7 +1209,10 @@ func (c19) Gen(r *rand.Rand, tier string, i int) any {
 			if r.Intn(3) == 0 {
 				regs[k].B = Bs(strings.ToUpper(string(regs[k].B)))
 			} else {
-				regs[k].A = Bs(strings.ToLower(string(regs[k].A)))
+				m := strings.ToUpper(string(regs[k].A))
+				for string(regs[k].A) == m { // a spelling other than upper case
+					regs[k].A = Bs(c19SpellMethod(r, m))
+				}
 			}
 		case "auth":
 			regs[k].A = Bs(strings.ToUpper(string(regs[k].A)))
@@ -1215,7 +1271,7 @@ func c19GenSteps(r *rand.Rand, in c19In, exact []c19Reg) [][]c19Reg {
 			case 4:
 				b = append(b, c19Reg{Kind: "producer", A: Bs(c19Media[r.Intn(len(c19Media))])})
 			case 5:
-				b = append(b, c19Reg{Kind: "operation", A: Bs(c19Meths[r.Intn(4)]), B: Bs(c19Template(r, in.BasePath))})
+				b = append(b, c19Reg{Kind: "operation", A: Bs(c19SpellMethod(r, c19Meths[r.Intn(len(c19Meths))])), B: Bs(c19Template(r, in.BasePath))})
 			case 6:
 				b = append(b, in.Regs[r.Intn(len(in.Regs))])
 			case 7:
@@ -1327,7 +1383,7 @@ func c19GenReqs(r *rand.Rand, in c19In) []c19Req {
 			} else if len(alts) == 0 && r.Intn(4) == 0 && len(in.Defs) > 0 {
 				rq.Creds = []string{in.Defs[r.Intn(len(in.Defs))].Name} // credentials nobody asked for
 			}
-			body := o.Method == "POST" || o.Method == "PUT"
+			body := c19BodyMethod(o.Method)
 			if r.Intn(8) == 0 {
 				body = !body
 			}
